@@ -111,7 +111,77 @@ for _m, _what in _DFAB.items():
     REGISTRY["dfab_" + _m] = (R + "dfa_builder::" + _m, _what, {})
     DFAB.append("dfab_" + _m)
 
+# ---------------------------------------------------------------- small primitives with an obvious contract
+def _reg(group, name, q, what, **sel):
+    REGISTRY[name] = (q, what, sel)
+    group.append(name)
+
+
+ITB = "ctpg::stdex::cvector::iterator_base::"
+CVEC2 = []
+_reg(CVEC2, "cvit_eq", ITB + "operator==", "same position", )
+_reg(CVEC2, "cvit_ne", ITB + "operator!=", "different position")
+_reg(CVEC2, "cvit_lt", ITB + "operator<", "before")
+_reg(CVEC2, "cvit_gt", ITB + "operator>", "after")
+_reg(CVEC2, "cvit_minus_n", ITB + "operator-", "the iterator `amount` positions back", ptypes={"0": "unsigned long"})
+_reg(CVEC2, "cvit_minus_it", ITB + "operator-", "the distance between two iterators", ptypes={"0": "iterator"})
+_reg(CVEC2, "cvit_preinc", ITB + "operator++", "advances by one, returns itself", nparams=0)
+_reg(CVEC2, "cvit_deref", "ctpg::stdex::cvector::iterator::operator*", "the element at the position")
+_reg(CVEC2, "cvector_subscript", CV + "operator[]", "the_data[idx]")
+_reg(CVEC2, "cvector_begin", CV + "begin", "iterator to the_data")
+_reg(CVEC2, "cvector_end", CV + "end", "iterator to the_data + current_size")
+_reg(CVEC2, "cvector_data", CV + "data", "the_data")
+_reg(CVEC2, "cbitset_eq", "ctpg::stdex::cbitset::operator==", "all words equal")
+
+CSI = "ctpg::buffers::cstring_buffer::iterator::"
+BUFIT = []
+_reg(BUFIT, "csit_deref", CSI + "operator*", "the byte at the position")
+_reg(BUFIT, "csit_preinc", CSI + "operator++", "advances by one, returns itself", nparams=0)
+_reg(BUFIT, "csit_eq", CSI + "operator==", "same position")
+_reg(BUFIT, "csit_ne", CSI + "operator!=", "different position")
+_reg(BUFIT, "csit_pluseq", CSI + "operator+=", "advances by len")
+_reg(BUFIT, "csit_plus", CSI + "operator+", "the iterator len positions further")
+_reg(BUFIT, "csbuf_ctor", "ctpg::buffers::cstring_buffer::cstring_buffer", "copies the N1 bytes of the literal")
+_reg(BUFIT, "csbuf_begin", "ctpg::buffers::cstring_buffer::begin", "iterator to data")
+_reg(BUFIT, "csbuf_end", "ctpg::buffers::cstring_buffer::end", "iterator to data + N - 1 (the terminator)")
+_reg(BUFIT, "csbuf_get_view", "ctpg::buffers::cstring_buffer::get_view", "string_view(start, end - start)")
+_reg(BUFIT, "sbuf_get_view", "ctpg::buffers::string_buffer::get_view", "string_view(&*start, end - start)")
+_reg(BUFIT, "svbuf_get_view", "ctpg::buffers::string_view_buffer::get_view", "str.substr(start - begin, end - start)")
+
+TV = "ctpg::term_value::"
+TVAL = []
+_reg(TVAL, "tv_get_value", TV + "get_value", "the stored value")
+_reg(TVAL, "tv_get_sp", TV + "get_sp", "the stored source point")
+_reg(TVAL, "tv_get_line", TV + "get_line", "sp.line")
+_reg(TVAL, "tv_get_column", TV + "get_column", "sp.column")
+_reg(TVAL, "sp_print", "ctpg::operator<<", "[line:column]", ptypes={"1": "source_point"})
+
+UTIL = []
+_reg(UTIL, "u_str_len", U + "str_len", "number of bytes before the terminator")
+_reg(UTIL, "u_pass_sv", U + "pass_sv", "the lexeme itself")
+_reg(UTIL, "u_first_sv_char", U + "first_sv_char", "the first byte of the lexeme")
+_reg(UTIL, "u_find_char", U + "find_char", "position of c in the terminated string, not counting the terminator; else 'not found'")
+_reg(UTIL, "u_str_equal", U + "str_equal", "both null or byte-wise equal up to and including the terminator")
+_reg(UTIL, "u_find_str", U + "find_str", "index of the first table entry equal to the string; throws when there is none")
+_reg(UTIL, "opt_set_skip_whitespace", "ctpg::parse_options::set_skip_whitespace", "stores the flag, returns the options")
+_reg(UTIL, "opt_set_skip_newline", "ctpg::parse_options::set_skip_newline", "stores the flag, returns the options")
+_reg(UTIL, "opt_set_verbose", "ctpg::parse_options::set_verbose", "stores the flag, returns the options")
+
+PS_ = "ctpg::detail::parse_state::"
+GAPI = []
+for _m, _w in (("enter_recovery_mode", "recovery_mode = true"), ("leave_recovery_mode", "recovery_mode = false"),
+               ("enter_consume_mode", "consume_mode = true"), ("leave_consume_mode", "consume_mode = false"),
+               ("in_recovery_mode", "recovery_mode"), ("in_consume_mode", "consume_mode")):
+    _reg(GAPI, "ps_" + _m, PS_ + _m, _w)
+_reg(GAPI, "rule_get_f", "ctpg::detail::rule::get_f", "the functor")
+_reg(GAPI, "rule_get_l", "ctpg::detail::rule::get_l", "the left side")
+_reg(GAPI, "rule_get_r", "ctpg::detail::rule::get_r", "the right side tuple")
+_reg(GAPI, "rule_get_precedence", "ctpg::detail::rule::get_precedence", "the explicit precedence")
+_reg(GAPI, "dfab_transition_char", R + "dfa_builder::transition", "new state appended, from --c--> it", ptypes={"1": "char"}, nparams=2)
+_reg(GAPI, "dfasz_prim", R + "dfa_size_analyzer::prim", "two states per primary")
+
 GROUPS = {
+    "CVEC2": CVEC2, "BUFIT": BUFIT, "TVAL": TVAL, "UTIL": UTIL, "GAPI": GAPI,
     "DFAB": DFAB,
     "DIAG": DIAG,
     "TERMAPI": TERMAPI,
